@@ -553,6 +553,15 @@ def gen_angles(rng, n, tier="quick"):
                 # the same wall clock with the other fold (a different instant if ambiguous)
                 dt2 = dt.replace(fold=1 - dt.fold)
                 spell.append((dt2, I(td_us(dt2.utcoffset())), z.describe() + " fold"))
+            if z.iana and rng.random() < 0.35:
+                # the same zone as a user-defined tzinfo (documentation style: only answers for
+                # datetimes that carry it)
+                dt3 = u.astimezone(zones.docs(z))
+                spell.append((dt3, I(td_us(dt3.utcoffset())), z.describe() + " user-tzinfo"))
+        if rng.random() < 0.3:
+            # an instance of a datetime subclass means the same as the plain datetime
+            dts, offs, zls = rng.choice(spell)
+            spell.append((gens.as_sub(dts), offs, zls + " (datetime subclass)"))
         rng.shuffle(spell)
         wr = rng.random() < 0.6
         for dt, off_tok, zl in spell:
@@ -649,6 +658,28 @@ def gen_builtin_noon(rng, n, tier="quick"):
         for j in range(per * (10 if abs(r.longitude) > 170.0 else 1)):
             d = datetime.date.fromordinal(rng.randint(gens.D1900, gens.D2100))
             fn = "midnight" if j % 5 == 4 else "noon"
+            if j % 3 == 1 and 1905 < d.year < 2095:
+                # the record's own zone, given by NAME (`rec.timezone`) — the natural way to ask for
+                # "noon at this location".  Where the zone keeps one offset for the days around,
+                # the model is given that fixed offset; the result must carry the named zone.
+                import zoneinfo as _zi
+                try:
+                    tzo = _zi.ZoneInfo(r.timezone)
+                except Exception:  # noqa: BLE001
+                    tzo = None
+                if tzo is not None:
+                    offs = {datetime.datetime(d.year, d.month, d.day, 12, tzinfo=tzo).__add__(
+                        datetime.timedelta(days=k)).astimezone(tzo).utcoffset() for k in (-2, -1, 0, 1, 2)}
+                    offs |= {(datetime.datetime(d.year, d.month, d.day, hh, tzinfo=tzo)).utcoffset()
+                             for hh in (0, 23)}
+                    if len(offs) == 1:
+                        sec = int(offs.pop().total_seconds())
+                        zf = zones.fixed(sec // 60) if sec % 60 == 0 else zones.fixed_seconds(sec)
+                        yield _event_case(rng, fn, o, d, zf, "",
+                                          (lambda fn=fn, o=o, d=d, nm=r.timezone: getattr(sun, fn)(o, d, nm)),
+                                          {"record": "%s,%s" % (r.name, r.region), "zone_by_name": r.timezone},
+                                          fmt=(lambda v, _tz, tzo=tzo: TZD(v, tzo)))
+                        continue
             yield _event_case(rng, fn, o, d, z, "", (lambda fn=fn, o=o, d=d: getattr(sun, fn)(o, d, z.tzinfo)),
                               {"record": "%s,%s" % (r.name, r.region)})
 
